@@ -348,7 +348,11 @@ class Env(object):
             self.multi = make_multi(self.conf_dir, allow_listing=True)
             for name in APP_NAMES:      # project apps are created on first use: do that before observing
                 call_wsgi(self.multi, '/%s/' % name)
-            self.static_roots, self.static_files = sandbox.default_read_roots(extra=[self.conf_dir])
+            roots, self.static_files = sandbox.default_read_roots(extra=[self.conf_dir])
+            # a sys.path entry such as /tmp must not make the whole deployment readable
+            self.static_roots = [r for r in roots if not sandbox.is_under(self.top, [r])]
+            self.static_files = [os.path.realpath(f) for f in self.static_files]
+            self._roots_memo = {}
         except BaseException:
             self.close()
             raise
@@ -459,6 +463,9 @@ class Env(object):
 
     def roots_for(self, layers):
         """allowed cache directories of a request naming `layers` (None: every configured cache)"""
+        key = None if layers is None else tuple(sorted(set(layers)))
+        if key in self._roots_memo:
+            return self._roots_memo[key]
         if layers is None or any(l not in self.layer_cache for l in layers):
             names = list(self.cache_paths)
         else:
@@ -468,6 +475,8 @@ class Env(object):
         roots = list(self.common_dirs)
         for n in names:
             roots.extend(self.cache_paths[n])
+        roots = sorted(set(os.path.realpath(r) for r in roots))
+        self._roots_memo[key] = roots
         return roots
 
     def cache_of_path(self, raw_path):
@@ -552,7 +561,7 @@ class Env(object):
         layers = case.get('layers')
         roots = self.roots_for(layers)
         obs = sandbox.Observer(write_roots=roots, read_roots=self.static_roots, read_files=self.static_files,
-                               confine=self.top)
+                               confine=self.top, resolved=True)
         b0, u0 = self.backend_calls, self.upstream.calls
         with obs:
             status, headers, body, stderr = call_wsgi(app, path, qs, case.get('headers'))
@@ -622,7 +631,8 @@ def parse_request(path, qs, multi=False):
 def request_layers(env, pr):
     """Known layers a request can address, or None when that cannot be told (then every cache is allowed).
     Query: every LAYERS/LAYER/QUERY_LAYERS name must be a configured layer.  Path: every configured layer
-    whose name starts with a path segment (TMS/KML build `<layer>_<layer_spec>`)."""
+    whose name starts with a path segment or is the start of one (TMS/KML look up `<layer>_<layer_spec>`,
+    `<layer>_EPSG900913`, and accept that internal name as the layer segment itself)."""
     found = []
     if pr['query_layers'] is not None:
         for n in pr['query_layers']:
@@ -631,7 +641,7 @@ def request_layers(env, pr):
             found.append(n)
     for s in pr['segments']:
         for l in env.layer_cache:
-            if l.startswith(s) and l not in found:
+            if (l.startswith(s) or s.startswith(l)) and l not in found:
                 found.append(l)
     return found or None
 
@@ -693,11 +703,22 @@ def _vector(pr, raw):
         cands.append(('path', s))
     cands.append(('path', '/'.join(pr['segments'])))
     best = None
+    low = raw.lower()
     for kind, text in cands:
-        # only components that carry path syntax can have steered the path
-        if len(text) >= 2 and ('/' in text or '..' in text or '\\' in text or '\x00' in text) and text in raw:
-            if best is None or len(text) > len(best[1]):
-                best = (kind, text)
+        # the longest prefix of the component that occurs in the path (intermediate directories carry only
+        # a prefix; MapProxy lower-cases dimension keys); it must carry path syntax to have steered the path
+        t = text.lower()
+        lo, hi = 0, len(t)
+        while lo < hi:
+            mid = (lo + hi + 1) // 2
+            if t[:mid] in low:
+                lo = mid
+            else:
+                hi = mid - 1
+        pre = t[:lo]
+        if lo >= 2 and ('/' in pre or '..' in pre or '\\' in pre or '\x00' in pre):
+            if best is None or lo > best[1]:
+                best = (kind, lo)
     return best[0] if best else 'unattributed'
 
 
@@ -777,6 +798,7 @@ def run_case(env, case, st_, open_sigs=()):
     reached = res['backend_calls'] > 0
     if reached:
         classes.append('reached-backend')
+        classes.append('reached:' + pr['service'])
         if layers:
             for l in layers[:1]:
                 classes.append('backend:' + env.backends[env.layer_cache[l]])
@@ -868,13 +890,25 @@ def _all_layers():
     return LAYER_NAMES
 
 
+_PLACEHOLDER = re.compile(r'(\{ROOT\}|\{ROOTREL\})')
+
+
 def _q(pairs, mode):
+    """query string from (key, value) pairs; the {ROOT} / {ROOTREL} placeholders stay literal (they are
+    replaced by the deployment directory, whose characters need no quoting, when the case is served)"""
     if mode == 'full':
-        enc = lambda s: ''.join('%%%02X' % b for b in s.encode('utf-8', 'surrogatepass'))
-        return '&'.join('%s=%s' % (urllib.parse.quote(k, safe=''), enc(v)) for k, v in pairs)
-    safe = '/:,' if mode == 'std' else ''
-    return '&'.join('%s=%s' % (urllib.parse.quote(k, safe='', errors='surrogatepass'),
-                               urllib.parse.quote(v, safe=safe, errors='surrogatepass')) for k, v in pairs)
+        def enc(text):
+            return ''.join('%%%02X' % b for b in text.encode('utf-8', 'surrogatepass'))
+    else:
+        safe = '/:,' if mode == 'std' else ''
+
+        def enc(text):
+            return urllib.parse.quote(text, safe=safe, errors='surrogatepass')
+
+    def enc_ph(text):
+        return ''.join(part if _PLACEHOLDER.fullmatch(part) else enc(part) for part in _PLACEHOLDER.split(text))
+    return '&'.join('%s=%s' % (enc_ph(k) if mode == 'full' else urllib.parse.quote(k, safe='{}', errors='surrogatepass'),
+                               enc_ph(v)) for k, v in pairs)
 
 
 def _strategies():
@@ -1002,14 +1036,14 @@ def _strategies():
 
     @st.composite
     def wmts_rest(draw, used):
+        if draw(st.integers(0, 29)) == 0:
+            return '/wmts/1.0.0/WMTSCapabilities.xml', []
         layer = draw(slot('layer', layers, LAYER_ATTACKS, 8, used))
         (z, x, y), vals = draw(tile(used, 10))
         tms = draw(slot('matrixset', ['GLOBAL_MERCATOR'] * 4 + GRID_NAMES, ATTACK_VALUES, 8, used))
         t = draw(slot('rest-dimension', TIME_VALUES + ['default'], ATTACK_VALUES, 40, used))
         e = draw(slot('rest-dimension', ELEV_VALUES + ['default'], ATTACK_VALUES, 25, used))
         fmt = draw(slot('format', ['png', 'png', 'jpeg'], ['png/../../x', '../png', 'png\x00', 'kml'], 4, used))
-        if draw(st.integers(0, 19)) == 0:
-            return '/wmts/1.0.0/WMTSCapabilities.xml', []
         return '/wmts/%s/%s/%s/%s/%s/%s/%s.%s' % (layer, tms, t, e, vals[0], vals[1], vals[2], fmt), []
 
     @st.composite
@@ -1115,10 +1149,18 @@ def _check_fn(env_holder, open_sigs):
     return check
 
 
+def _open_signatures():
+    # VERIF_C09_NO_EXCLUSION=1: serve the constructs of open findings too (used to show that the check is
+    # quiet on a tree with the proposed fix applied while the finding is still listed as open)
+    if os.environ.get('VERIF_C09_NO_EXCLUSION'):
+        return set()
+    return core.open_signatures(PROPERTY)
+
+
 def random_shard(shard, nshards, seed, tier):
     st_ = core.Stats()
     n = (26000 if tier == 'quick' else 640000) // nshards
-    open_sigs = core.open_signatures(PROPERTY)
+    open_sigs = _open_signatures()
     holder = [None]
     try:
         core.hyp_search(_strategies(), _check_fn(holder, open_sigs), st_, max_examples=n, seed=seed, max_signatures=6)
